@@ -415,7 +415,7 @@ def record_cases(ctx: Ctx, real: Real, n: int, depth: int, width: int, nleaf: in
 def validate_cases(ctx: Ctx, cases: list, what: str) -> dict:
     f = ctx.tmp(f"cases_{what}.json")
     f.write_text(json.dumps([{k: c[k] for k in ("v", "f", "it", "vis", "r")} for c in cases]))
-    w = int(os.environ.get("VERIF_WORKERS", "0")) or 8
+    w = min(4, int(os.environ.get("VERIF_WORKERS", "0")) or 4)
     cfg = (f"SPECIFICATION Spec\nCONSTANTS\n Chains = {4 * w}\nINVARIANT Emit\nINVARIANT WellFormedInputs\n"
            "CHECK_DEADLOCK FALSE\n")
     # verdict lines carry their case index, so several workers may print them in any order
